@@ -102,7 +102,7 @@ theorem sr_readSig {a st : St} (h : SR a st) (s : Nat) : SR a (readSig st s) := 
     · exact h
   · exact h
 
-theorem sr_newEffect {a st : St} (h : SR a st) (b : Nat) : SR a (newEffect st b) := by
+theorem sr_newEffect {a st : St} (h : SR a st) (b : Nat) (k : EffKind) : SR a (newEffect st b k) := by
   unfold newEffect
   exact CR.newItem (CR.newOwner h) _
 
@@ -118,22 +118,47 @@ theorem sr_newOwnerHandle {a st : St} (h : SR a st) : SR a (newOwnerHandle st) :
   unfold newOwnerHandle
   exact CR.newOwner h
 
-theorem sr_execCreate (a st : St) (op : BOp) (h : SR a st) : SR a (execCreate st op) := by
-  cases op with
-  | read s => exact sr_readSig h s
-  | get m => exact h
-  | cleanup tag => exact h.prim (CorePrim.regCleanup _ _ _)
-  | nested tag => exact h.prim (CorePrim.regCleanup _ _ _)
-  | item v => exact CR.newStored h _
-  | sig v => exact sr_newSignal h v
-  | provide ty v => exact h.prim (CorePrim.provide _ _ _)
-  | use ty => exact h.prim (CorePrim.useCtx _ _)
-  | take ty => exact h.prim (CorePrim.takeCtx _ _)
-  | effect b => exact sr_newEffect h b
-  | memo b => exact sr_newMemo h b
-  | newOwner => exact sr_newOwnerHandle h
+/-- a token executor that only performs core primitives -/
+def SRex (ex : St → BOp → St) : Prop := ∀ (a st : St) (op : BOp), SR a st → SR a (ex st op)
 
-theorem sr_runMemo {a st : St} (h : SR a st) (m : Nat) : SR a (runMemo st m) := by
+theorem sr_runScoped {ex : St → BOp → St} (hex : SRex ex) {a st : St} (h : SR a st) (e o b : Nat) :
+    SR a (runScoped ex st e o b) := by
+  unfold runScoped
+  simp only
+  have key : ∀ (body : List BOp) (S0 : St),
+      S0.toCore = logEv (pushCur (cleanupOwner st.toCore o) o) (Ev.r e) →
+      ∀ x, CoreReach a.toCore (popCur (logEv (List.foldl ex S0 body).toCore (Ev.s e x)) 1) := by
+    intro body S0 h0 x
+    refine CR.popCur (CR.logEv (sr_foldl _ hex body (a := a) (st := S0) ?_) _ rfl) 1
+    unfold SR; rw [h0]
+    exact CR.logEv (CR.pushCur (CR.cleanupOwner h _) _) _ rfl
+  exact key _ _ rfl _
+
+theorem sr_pushEager {a st : St} (h : SR a st) (b : Nat) (k : EffKind) : SR a (pushEager st b k) := by
+  unfold pushEager
+  exact CR.newOwner h
+
+theorem sr_addTask {a st : St} (h : SR a st) (e : Nat) : SR a (addTask st e) := h.react rfl
+
+theorem sr_finishAsync {a st : St} (h : SR a st) (e : Nat) : SR a (finishAsync st e) := by
+  unfold finishAsync
+  simp only
+  split
+  · exact CR.newItem h _
+  · exact CR.newItem h _
+
+theorem sr_newRender {ex : St → BOp → St} (hex : SRex ex) {a st : St} (h : SR a st) (b : Nat) :
+    SR a (newRender ex st b) := by
+  unfold newRender
+  exact sr_addTask (sr_runScoped hex (sr_pushEager h _ _) _ _ _) _
+
+theorem sr_newAsync {ex : St → BOp → St} (hex : SRex ex) {a st : St} (h : SR a st) (b : Nat) :
+    SR a (newAsync ex st b) := by
+  unfold newAsync
+  exact sr_finishAsync (sr_addTask (sr_runScoped hex (sr_pushEager h _ _) _ _ _) _) _
+
+theorem sr_runMemo {ex : St → BOp → St} (hex : SRex ex) {a st : St} (h : SR a st) (m : Nat) :
+    SR a (runMemo ex st m) := by
   unfold runMemo
   split
   · exact h
@@ -141,16 +166,17 @@ theorem sr_runMemo {a st : St} (h : SR a st) (m : Nat) : SR a (runMemo st m) := 
     simp only
     have key : ∀ (body : List BOp) (S0 : St),
         S0.toCore = logEv (pushCur (cleanupOwner st.toCore mr.owner) mr.owner) (Ev.m m) →
-        CoreReach a.toCore (popCur (List.foldl execCreate S0 body).toCore 1) := by
+        CoreReach a.toCore (popCur (List.foldl ex S0 body).toCore 1) := by
       intro body S0 h0
-      refine CR.popCur (sr_foldl _ sr_execCreate body (a := a) (st := S0) ?_) 1
+      refine CR.popCur (sr_foldl _ hex body (a := a) (st := S0) ?_) 1
       unfold SR; rw [h0]
       exact CR.logEv (CR.pushCur (CR.cleanupOwner h _) _) _ rfl
     split
     · exact key _ _ rfl
     · exact key _ _ rfl
 
-theorem sr_getMemo {a st : St} (h : SR a st) (m : Nat) : SR a (getMemo st m) := by
+theorem sr_getMemo {ex : St → BOp → St} (hex : SRex ex) {a st : St} (h : SR a st) (m : Nat) :
+    SR a (getMemo ex st m) := by
   unfold getMemo
   split
   · simp only
@@ -160,18 +186,70 @@ theorem sr_getMemo {a st : St} (h : SR a st) (m : Nat) : SR a (getMemo st m) := 
     apply key
     split
     · split
-      · exact sr_runMemo h _
+      · exact sr_runMemo hex h _
       · exact h
     · exact h
   · exact h.prim (CorePrim.logEv _ _ rfl)
 
-theorem sr_execBOp (a st : St) (op : BOp) (h : SR a st) : SR a (execBOp st op) := by
-  unfold execBOp
-  split
-  · split
+theorem sr_execWith {ex : St → BOp → St} (hex : SRex ex) : SRex (execWith ex) := by
+  intro a st op h
+  cases op with
+  | read s => exact sr_readSig h s
+  | get m =>
+    simp only [execWith]
+    split
     · exact h
-    · exact sr_getMemo h _
-  · exact sr_execCreate _ _ _ h
+    · exact sr_getMemo hex h _
+  | cleanup tag => exact h.prim (CorePrim.regCleanup _ _ _)
+  | nested tag => exact h.prim (CorePrim.regCleanup _ _ _)
+  | item v => exact CR.newStored h _
+  | sig v => exact sr_newSignal h v
+  | provide ty v => exact h.prim (CorePrim.provide _ _ _)
+  | use ty => exact h.prim (CorePrim.useCtx _ _)
+  | take ty => exact h.prim (CorePrim.takeCtx _ _)
+  | effect b => exact sr_newEffect h b _
+  | memo b => exact sr_newMemo h b
+  | newOwner => exact sr_newOwnerHandle h
+  | watch b hb imm => exact sr_newEffect h b _
+  | render b => exact sr_newRender hex h b
+  | async b => exact sr_newAsync hex h b
+
+theorem sr_exec (f : Nat) : SRex (exec f) := by
+  induction f with
+  | zero =>
+    intro a st op h
+    simp only [exec]
+    exact sr_execWith (fun _ _ _ h => h) a st op h
+  | succ n ih =>
+    intro a st op h
+    simp only [exec]
+    exact sr_execWith ih a st op h
+
+theorem sr_execBOp (a st : St) (op : BOp) (h : SR a st) : SR a (execBOp st op) := sr_exec _ a st op h
+
+theorem sr_execHandlerTok (a st : St) (op : BOp) (h : SR a st) : SR a (execHandlerTok st op) := by
+  cases op with
+  | read s => exact sr_readSig h s
+  | cleanup tag => exact SR.react (st := st.lift (regCleanup · tag false)) (h.prim (CorePrim.regCleanup _ _ _)) rfl
+  | item v => exact SR.react (st := st.lift (newStored · v)) (CR.newStored h _) rfl
+  | sig v => exact SR.react (st := newSignal st v) (sr_newSignal h v) rfl
+  | use ty => exact SR.react (st := st.lift (useCtx · ty)) (h.prim (CorePrim.useCtx _ _)) rfl
+  | get m => exact h
+  | nested tag => exact h
+  | provide ty v => exact h
+  | take ty => exact h
+  | effect b => exact h
+  | memo b => exact h
+  | newOwner => exact h
+  | watch b hb imm => exact h
+  | render b => exact h
+  | async b => exact h
+
+theorem sr_runHandler {a st : St} (h : SR a st) (e hb : Nat) : SR a (runHandler st e hb) := by
+  unfold runHandler
+  simp only
+  refine SR.react (st := List.foldl execHandlerTok _ _) (sr_foldl _ sr_execHandlerTok _ ?_) rfl
+  exact SR.react (st := st.lift (logEv · (Ev.h e))) (h.prim (CorePrim.logEv _ _ rfl)) rfl
 
 theorem sr_endTask {a st : St} (h : SR a st) (e : Nat) : SR a (endTask st e) := by
   unfold endTask
@@ -179,17 +257,24 @@ theorem sr_endTask {a st : St} (h : SR a st) (e : Nat) : SR a (endTask st e) := 
   · next er _ => exact CR.dropOwner h er.owner
   · exact h
 
+theorem sr_prepRun {a st : St} (h : SR a st) (e : Nat) (er : EffRec) : SR a (prepRun st e er) := by
+  unfold prepRun
+  simp only
+  split
+  · exact h.react rfl
+  · exact h.react rfl
+
+theorem sr_afterRun {a st : St} (h : SR a st) (e : Nat) (er : EffRec) : SR a (afterRun st e er) := by
+  unfold afterRun
+  split
+  · split
+    · exact sr_runHandler h _ _
+    · exact h
+  · exact h
+
 theorem sr_runEffect {a st : St} (h : SR a st) (e : Nat) (er : EffRec) : SR a (runEffect st e er) := by
   unfold runEffect
-  simp only
-  have key : ∀ (body : List BOp) (S0 : St),
-      S0.toCore = logEv (pushCur (cleanupOwner st.toCore er.owner) er.owner) (Ev.r e) →
-      ∀ x, CoreReach a.toCore (popCur (logEv (List.foldl execBOp S0 body).toCore (Ev.s e x)) 1) := by
-    intro body S0 h0 x
-    refine CR.popCur (CR.logEv (sr_foldl _ sr_execBOp body (a := a) (st := S0) ?_) _ rfl) 1
-    unfold SR; rw [h0]
-    exact CR.logEv (CR.pushCur (CR.cleanupOwner h _) _) _ rfl
-  exact key _ _ rfl _
+  exact sr_afterRun (sr_runScoped sr_execBOp (sr_prepRun h _ _) _ _ _) _ _
 
 theorem sr_pollEff {a st : St} (h : SR a st) (e : Nat) : SR a (pollEff st e) := by
   unfold pollEff
@@ -252,6 +337,26 @@ theorem sr_dropHandle (a st : St) (hd : Nat) (h : SR a st) : SR a (dropHandle st
   · next o _ => exact CR.dropOwner (h.react (st := st) rfl) o
   · exact h
 
+theorem sr_runWc {a st : St} (h : SR a st) (o b : Nat) : SR a (runWc st o b) := by
+  unfold runWc
+  simp only
+  have key : ∀ (body : List BOp) (S0 : St), S0.toCore = pushCur (cleanupOwner st.toCore o) o →
+      CoreReach a.toCore (popCur (List.foldl execBOp S0 body).toCore 1) := by
+    intro body S0 h0
+    refine CR.popCur (sr_foldl _ sr_execBOp body (a := a) (st := S0) ?_) 1
+    unfold SR; rw [h0]
+    exact CR.pushCur (CR.cleanupOwner h _) _
+  exact key _ _ rfl
+
+theorem sr_disposeEff {a st st' : St} (h : SR a st) {i : Nat} (hd : disposeEff st i = some st') : SR a st' := by
+  unfold disposeEff at hd
+  split at hd
+  · next er _ =>
+    split at hd
+    · next k _ => simp only [Option.some.injEq] at hd; subst hd; exact CR.disposeKey h k
+    · simp only [Option.some.injEq] at hd; subst hd; exact h.react rfl
+  · cases hd
+
 /-- every op line is a composition of core primitives -/
 theorem sr_stepOp {a st st' : St} {op : Op} (h0 : SR a st) (h : stepOp st op = some st') : SR a st' := by
   cases op with
@@ -272,6 +377,13 @@ theorem sr_stepOp {a st st' : St} {op : Op} (h0 : SR a st) (h : stepOp st op = s
           simp only [Option.map_some, Option.some.injEq] at h; subst h
           exact CR.popCur (CR.cleanupOwner (CR.pushAll h0 os) o) _
         · simp at h
+      | wc hh b =>
+        simp only at h
+        split at h
+        · next o _ =>
+          simp only [Option.map_some, Option.some.injEq] at h; subst h
+          exact CR.popCur (sr_runWc (st := st.lift (pushAll · os)) (CR.pushAll h0 os) o b) _
+        · simp at h
   | child hh =>
     simp only [stepOp] at h
     split at h
@@ -285,10 +397,23 @@ theorem sr_stepOp {a st st' : St} {op : Op} (h0 : SR a st) (h : stepOp st op = s
     · simp only [Option.some.injEq] at h; subst h; exact sr_dropHandle _ _ _ h0
     · cases h
   | dispose k i =>
-    simp only [stepOp] at h
-    split at h
-    · next key _ => simp only [Option.some.injEq] at h; subst h; exact CR.disposeKey h0 key
-    · cases h
+    cases k with
+    | e => simp only [stepOp] at h; exact sr_disposeEff h0 h
+    | i =>
+      simp only [stepOp] at h
+      split at h
+      · next key _ => simp only [Option.some.injEq] at h; subst h; exact CR.disposeKey h0 key
+      · cases h
+    | s =>
+      simp only [stepOp] at h
+      split at h
+      · next key _ => simp only [Option.some.injEq] at h; subst h; exact CR.disposeKey h0 key
+      · cases h
+    | m =>
+      simp only [stepOp] at h
+      split at h
+      · next key _ => simp only [Option.some.injEq] at h; subst h; exact CR.disposeKey h0 key
+      · cases h
   | set s v =>
     simp only [stepOp] at h
     split at h
